@@ -188,6 +188,7 @@ Fixpoint votes_of (id : Z) (l : list Ev) : list (Z * Z) :=
   match l with
   | [] => []
   | EvVote i who opt _ _ :: r => if i =? id then set_vote who opt (votes_of id r) else votes_of id r
+  | EvRotate old new _ :: r => rename_vote old new (votes_of id r)     (* the person continues under the new address *)
   | _ :: r => votes_of id r
   end.
 
@@ -212,6 +213,7 @@ Definition ev_ok (e : Ev) (r : list Ev) : Prop :=
                 /\ p_eend p <= now c
                 /\ (if ok then handler P (p_content p) a = Ok a'
                     else a' = a /\ exists m, handler P (p_content p) a = Err m)
+  | EvRotate _ _ _ => True
   end.
 Fixpoint log_ok (l : list Ev) : Prop :=
   match l with [] => True | e :: r => ev_ok e r /\ log_ok r end.
@@ -548,12 +550,25 @@ Qed.
 (* ---------------------------------------------------------------- whole histories *)
 Lemma step_inv : forall c o s s', Inv s -> step' c o s = Ok s' -> Inv s' /\ evolves s s'.
 Proof.
-  intros c o s s' HI H. destruct o as [who ct|who id opt| |e]; cbn [step] in H.
+  intros c o s s' HI H. destruct o as [who ct|who id opt| |e|old new]; cbn [step] in H.
   - eapply submit_inv; eauto.
   - eapply vote_inv; eauto.
   - eapply end_block_inv; eauto.
   - inversion H; subst s'. split.
     + constructor; cbn [log votes props next_id activeq enactq app]; apply HI.
+    + intros i q Hq. exists q. cbn [props]. split; auto. split; [apply same_static_refl|auto].
+  - inversion H; subst s'. split.
+    + constructor; cbn [log votes props next_id activeq enactq app].
+      * cbn [log_ok ev_ok]. split; [exact I|apply (inv_log s HI)].
+      * intros i. cbn [votes_of]. rewrite (inv_votes s HI). reflexivity.
+      * intros i q Hq. destruct (inv_props s HI i q Hq) as [[q0 [Hs [Hst Hen]]] Hl]. split; auto.
+        exists q0. cbn [submit_of n_applied final_of]. auto.
+      * intros i Hq. destruct (inv_none s HI i Hq) as (?&?&?&Hv).
+        unfold fresh. cbn [submit_of n_final n_applied votes_of]. rewrite Hv. auto.
+      * apply (inv_next s HI).
+      * intros k Hin. destruct (inv_active s HI k Hin) as [q Hq]. exists q. cbn [n_final n_applied]. exact Hq.
+      * apply (inv_nodup s HI).
+      * apply (inv_enact s HI).
     + intros i q Hq. exists q. cbn [props]. split; auto. split; [apply same_static_refl|auto].
 Qed.
 
@@ -589,20 +604,21 @@ Lemma final_of_split : forall id l res tl nv q mine c a,
   exists l3 l4, l = l3 ++ EvFinal id res tl nv q mine c a :: l4.
 Proof.
   intros id l. induction l as [|e r IH]; cbn [final_of]; intros res tl nv q mine c a H; [discriminate|].
-  destruct e as [i p0 c0|i w o c0 a0|i res0 tl0 nv0 q0 mine0 c0 a0|i ok0 c0 a0 a1].
+  destruct e as [i p0 c0|i w o c0 a0|i res0 tl0 nv0 q0 mine0 c0 a0|i ok0 c0 a0 a1|ro rn c0].
   - destruct (IH _ _ _ _ _ _ _ H) as [l3 [l4 E]]. exists (EvSubmit i p0 c0 :: l3), l4. rewrite E. reflexivity.
   - destruct (IH _ _ _ _ _ _ _ H) as [l3 [l4 E]]. exists (EvVote i w o c0 a0 :: l3), l4. rewrite E. reflexivity.
   - destruct (Z.eqb_spec i id) as [->|Hne].
     + inversion H; subst. exists [], r. reflexivity.
     + destruct (IH _ _ _ _ _ _ _ H) as [l3 [l4 E]]. exists (EvFinal i res0 tl0 nv0 q0 mine0 c0 a0 :: l3), l4. rewrite E. reflexivity.
   - destruct (IH _ _ _ _ _ _ _ H) as [l3 [l4 E]]. exists (EvApply i ok0 c0 a0 a1 :: l3), l4. rewrite E. reflexivity.
+  - destruct (IH _ _ _ _ _ _ _ H) as [l3 [l4 E]]. exists (EvRotate ro rn c0 :: l3), l4. rewrite E. reflexivity.
 Qed.
 
 Lemma submit_of_stable : forall id p l3 l4, log_ok (l3 ++ l4) -> submit_of id l4 = Some p -> submit_of id (l3 ++ l4) = Some p.
 Proof.
   intros id p l3 l4. induction l3 as [|e r IH]; cbn [List.app]; intros Hok Hs; [assumption|].
   cbn [log_ok] in Hok. destruct Hok as [He Hr]. specialize (IH Hr Hs).
-  destruct e as [i p0 c0|i w o c0 a0|i res0 tl0 nv0 q0 mine0 c0 a0|i ok0 c0 a0 a1]; cbn [List.app submit_of]; auto.
+  destruct e as [i p0 c0|i w o c0 a0|i res0 tl0 nv0 q0 mine0 c0 a0|i ok0 c0 a0 a1|ro rn c0]; cbn [List.app submit_of]; auto.
   destruct (Z.eqb_spec i id) as [->|Hne]; auto.
   cbn [ev_ok] in He. destruct He as [E _]. congruence.
 Qed.
@@ -611,7 +627,7 @@ Lemma n_applied_le_1 : forall id l, log_ok l -> (n_applied id l <= 1)%nat.
 Proof.
   intros id l. induction l as [|e r IH]; cbn [log_ok n_applied]; intros H; [lia|].
   destruct H as [He Hr]. specialize (IH Hr).
-  destruct e as [i p0 c0|i w o c0 a0|i res0 tl0 nv0 q0 mine0 c0 a0|i ok0 c0 a0 a1]; auto.
+  destruct e as [i p0 c0|i w o c0 a0|i res0 tl0 nv0 q0 mine0 c0 a0|i ok0 c0 a0 a1|ro rn c0]; auto.
   destruct (Z.eqb_spec i id) as [->|Hne]; auto.
   cbn [ev_ok] in He. destruct He as [p [_ [E _]]]. lia.
 Qed.
@@ -620,7 +636,7 @@ Lemma n_final_le_1 : forall id l, log_ok l -> (n_final id l <= 1)%nat.
 Proof.
   intros id l. induction l as [|e r IH]; cbn [log_ok n_final]; intros H; [lia|].
   destruct H as [He Hr]. specialize (IH Hr).
-  destruct e as [i p0 c0|i w o c0 a0|i res0 tl0 nv0 q0 mine0 c0 a0|i ok0 c0 a0 a1]; auto.
+  destruct e as [i p0 c0|i w o c0 a0|i res0 tl0 nv0 q0 mine0 c0 a0|i ok0 c0 a0 a1|ro rn c0]; auto.
   destruct (Z.eqb_spec i id) as [->|Hne]; auto.
   cbn [ev_ok] in He. destruct He as [p [_ [E _]]]. lia.
 Qed.
@@ -774,7 +790,7 @@ Lemma not_passed_never_applied : forall l id res tl nv q mine c a,
 Proof.
   induction l as [|e r IH]; intros id res tl nv q mine c a Hok Hf Hne; [discriminate|].
   cbn [log_ok] in Hok. destruct Hok as [He Hr].
-  destruct e as [i p0 c0|i w o c0 a0|i res0 tl0 nv0 q0 mine0 c0 a0|i ok0 c0 a0 a1]; cbn [final_of n_applied] in *.
+  destruct e as [i p0 c0|i w o c0 a0|i res0 tl0 nv0 q0 mine0 c0 a0|i ok0 c0 a0 a1|ro rn c0]; cbn [final_of n_applied] in *.
   - eapply IH; eauto.
   - eapply IH; eauto.
   - destruct (Z.eqb_spec i id) as [->|Hni]; [|eapply IH; eauto].
@@ -782,6 +798,7 @@ Proof.
   - destruct (Z.eqb_spec i id) as [->|Hni]; [|eapply IH; eauto].
     cbn [ev_ok] in He. destruct He as [p [_ [_ [[tl1 [nv1 [q1 [m1 [cf1 [af1 [Hf1 _]]]]]]] _]]]].
     rewrite Hf in Hf1. inversion Hf1. congruence.
+  - eapply IH; eauto.
 Qed.
 
 Theorem inconsistent_tally_not_applied : forall ops a id res tl nv q mine c af e,
